@@ -1,8 +1,8 @@
 #!/verif/.venv/bin/python
 # Replay of a solver counterexample against the unmodified code (no shims).
-# property=C09 kernel=atomic label=atomic:declare_bad_target#1
+# property=C09 kernel=atomic label=atomic:declare_too_many#1
 import sys
 sys.path[:0] = ['/repo' + "/pulser-core", '/repo' + "/pulser-simulation", "/verif"]
 from symx.replay import replay
-sys.exit(replay(check='checks.c09', kernel='atomic', shape={'device': 'virt_maxseq', 'prefix': 'pe', 'ops': ['add_g', 'declare_bad_target']},
-                assignment={'d0': 1, 'a0': '0/1', 'det0': 0}, label='atomic:declare_bad_target#1'))
+sys.exit(replay(check='checks.c09', kernel='atomic', shape={'device': 'virt_maxseq', 'prefix': 'pe', 'ops': ['add_g', 'declare_too_many']},
+                assignment={'d0': 1, 'a0': '0/1', 'det0': 0}, label='atomic:declare_too_many#1'))
